@@ -132,11 +132,11 @@ package bindnode
 //@ func (*_assembler).AssignNode(node) (err)
 //@   nosafety
 //@   requires w != nil && node != nil
-//@   before Copy assert[C09,C11] carg0 == node && carg1 == iface(w)
+//@   before Copy assert[C01,C09,C11] carg0 == node && carg1 == iface(w)
 //@   before assignUInt assert[C09] carg0 == w
 //@   after Copy let checked = true
 //@   after assignUInt let checked = true
-//@   ensures[C09,C11] err == nil ==> defined(checked)
+//@   ensures[C01,C09,C11] err == nil ==> defined(checked)
 //@ func (*_assemblerRepr).AssignNode(node) (err)
 //@   nosafety
 //@   requires w != nil && node != nil
